@@ -483,7 +483,16 @@ impl CoreInner {
 		let wal_dir = self.wal.read().get_dir_path().to_path_buf();
 		let min_wal_to_keep = entry.wal_number + 1;
 
+		let manifest = Arc::clone(&self.level_manifest);
 		tokio::spawn(async move {
+			// This task may run late: a restore may have rewound the store in between.
+			// Segments from the manifest's current log number on are live, whatever was
+			// flushed when the task was spawned. (The lock keeps a restore out meanwhile.)
+			let guard = manifest.read();
+			let min_wal_to_keep = match &guard {
+				Ok(m) => min_wal_to_keep.min(m.get_log_number()),
+				Err(_) => return,
+			};
 			match cleanup_old_segments(&wal_dir, min_wal_to_keep) {
 				Ok(count) if count > 0 => {
 					log::info!(
@@ -1645,21 +1654,19 @@ impl Tree {
 		// their data is intentionally discarded by the restore.
 		let _write_guard = self.core.commit_pipeline.lock_writes();
 
-		// Step 1: Restore files from checkpoint
+		// Step 1: Restore files from checkpoint. The manifest lock is held until the
+		// reloaded manifest is in place, which keeps pending commit-log clean-ups away
+		// from the half-replaced directories.
 		let index_source = checkpoint_dir.as_ref().join("versioned_index").join("index.bpt");
-		let checkpoint = DatabaseCheckpoint::new(Arc::clone(&self.core.inner));
-		let metadata = checkpoint.restore_from_checkpoint(checkpoint_dir)?;
-
-		// Step 2: Reload in-memory state to match restored files
-
-		// Create a new LevelManifest from the current path
-		let new_levels = LevelManifest::new(Arc::clone(&self.core.inner.opts))?;
-
-		// Replace the current levels with the reloaded ones
-		{
+		let metadata = {
 			let mut levels_guard = self.core.inner.level_manifest.write()?;
-			*levels_guard = new_levels;
-		}
+			let checkpoint = DatabaseCheckpoint::new(Arc::clone(&self.core.inner));
+			let metadata = checkpoint.restore_from_checkpoint(checkpoint_dir)?;
+
+			// Step 2: Reload in-memory state to match restored files
+			*levels_guard = LevelManifest::new(Arc::clone(&self.core.inner.opts))?;
+			metadata
+		};
 
 		// Table ids and value-log file ids are rewound: nothing cached under them is valid
 		self.core.inner.opts.block_cache.clear();
